@@ -145,6 +145,8 @@ def make_symbolic(spec, name, reg, st):
         raise Unsupported(f'type spec {spec!r}')
     if isinstance(spec, tuple):
         tag = spec[0]
+        if tag == 'opt':
+            raise Unsupported('optional type must be split with cases / returns alternatives')
         if tag == 'tuple':
             return tuple(make_symbolic(t, f'{name}_{i}', reg, st) for i, t in enumerate(spec[1:]))
         if tag == 'const':
